@@ -98,6 +98,8 @@ def run(ctx: core.Ctx):
             pairs = [(c, d) for c in TN for d in SN if not ((c in disc and d in quot) or (c in quot and d in disc))]
         else:
             pairs = DIST if not ctx.quick else [DIST[ci % len(DIST)], DIST[(ci + 3) % len(DIST)]]
+        if ci % 2 == 0:     # a user-supplied, non-associative operator on both sides: only the grouping the grammar prescribes gives these degrees
+            pairs = list(pairs) + [("Mean", "Mean"), ("Minimum", "Mean")][: 1 + ci % 4 // 2]
         for (c, d) in pairs:
             E = base_engine(tw, c, d, ["1", "1/2", "1/4"], f"c06-{ci}-{c}-{d}")
             # a disabled variable yields 0 whatever its hedges say
